@@ -261,7 +261,9 @@ impl BreakerBase {
     /// Return true only if current goroutine successfully accomplished the transformation.
     pub fn from_open_to_half_open(&self, ctx: &EntryContext) -> bool {
         let mut state = self.state.lock().unwrap();
-        if *state == State::Open {
+        // the caller checked the retry deadline before this lock was taken: meanwhile another request may have
+        // probed, failed and re-opened the breaker with a new deadline, which has to be respected as well
+        if *state == State::Open && self.retry_timeout_arrived() {
             *state = State::HalfOpen;
             let listeners = state_change_listeners().lock().unwrap();
             for listener in &*listeners {
